@@ -177,6 +177,15 @@ func (w *World) faultFor(node int, site string) *Fault {
 		if n <= 0 {
 			n = 1
 		}
+		if f.ToMs > 0 {
+			// time-window fault: every occurrence between FromMs and ToMs
+			now := w.Sim.Now().Milliseconds()
+			if now >= int64(f.FromMs) && now < int64(f.ToMs) {
+				w.Probe("fault:" + f.Kind + ":" + site)
+				return f
+			}
+			continue
+		}
 		if f.Occ == 0 || (occ >= f.Occ && occ < f.Occ+n) {
 			w.Probe("fault:" + f.Kind + ":" + site)
 			return f
